@@ -482,7 +482,11 @@ impl ReadBehaviour {
         }
     }
     pub fn random(r: &mut SplitMix) -> Self {
-        let struct_as_seq = r.chance(1, 4);
+        // not generated (the draw keeps the stream aligned): delivering a struct as a
+        // bare sequence drops the field names, which is what NON-self-describing
+        // formats do; a Serialize that skips default-valued fields (legitimate for
+        // self-describing formats) cannot be read back positionally
+        let struct_as_seq = r.chance(1, 4) && false;
         ReadBehaviour {
             permute_fields: !struct_as_seq && r.chance(2, 3),
             struct_as_seq,
